@@ -580,6 +580,14 @@ func (se *specEnv) eval(x ast.Expr) (out Val) {
 		return se.fieldOf(base, n.Sel.Name)
 	case *ast.IndexExpr:
 		base := se.eval(n.X)
+		if mt, ok := base.typ.Underlying().(*types.Map); ok {
+			k := se.coerce(se.eval(n.Index), mt.Key())
+			_, val, ok := e.mapGet(se.st, base, k.term)
+			if !ok {
+				panic("spec: content of " + base.typ.String() + " is not modelled")
+			}
+			return Val{term: val, typ: mt.Elem()}
+		}
 		idx := se.coerce(se.eval(n.Index), types.Typ[types.Int])
 		it := e.toIdx(idx)
 		switch bt := base.typ.Underlying().(type) {
@@ -801,6 +809,18 @@ func (se *specEnv) evalCall(n *ast.CallExpr) Val {
 				panic("spec: unknown name " + nm.Name)
 			}
 			return *found
+		case "has": // has(m, k): key k is present in map m
+			m := arg(0)
+			mt, ok := m.typ.Underlying().(*types.Map)
+			if !ok {
+				panic("spec: has() on non-map")
+			}
+			k := se.coerce(arg(1), mt.Key())
+			present, _, ok := e.mapGet(se.st, m, k.term)
+			if !ok {
+				panic("spec: content of " + m.typ.String() + " is not modelled")
+			}
+			return boolVal(present)
 		case "wf": // well-formed slice or string header
 			return boolVal(e.wfSlice(arg(0).term))
 		case "bv2nat", "nat": // unsigned value of an integer as int (for mixed-width arithmetic in bv mode)
